@@ -12,7 +12,8 @@
     every id named by a [requires] rule of an argument or of a group exists -- what debug_asserts.rs checks. *)
 From ClapModel Require Import Base.Bytes Base.Machine Parse.Cmd Parse.Build Parse.Valid Parse.Matcher Parse.Errors Parse.Validator Parse.Parser.
 From ClapModel Require Import ParseProofs.Spelling.
-From ClapModel Require Import Gen.HelpTables Help.UsageModel Help.HelpModel Help.HelpReqs Help.HelpProofs Help.HelpLevel Help.HelpSpecVals Help.HelpDispatch Help.HelpUsage Help.HelpGlobals Help.HelpTemplate Help.HelpHeadings Help.HelpRefsBuild Help.HelpFlagGen.
+From ClapModel Require ParseProofs.Dispatch ParseProofs.ChainWide Complete.EngineProofs Complete.EngineLevel.
+From ClapModel Require Import Gen.HelpTables Help.UsageModel Help.HelpModel Help.HelpReqs Help.HelpProofs Help.HelpLevel Help.HelpSpecVals Help.HelpDispatch Help.HelpUsage Help.HelpGlobals Help.HelpTemplate Help.HelpHeadings Help.HelpRefsBuild Help.HelpFlagGen Help.HelpUnbuilt Help.HelpChainWide Help.HelpSubcommand Help.HelpUsageExact.
 From RecordUpdate Require Import RecordSet.
 Import RecordSetNotations.
 Open Scope N_scope.
@@ -510,3 +511,283 @@ Theorem C12_help_flag_gen_satisfiable :
     /\ match get_pos lv 1 with Some a => negb (a_negnum a) && negb (a_hyphen a && negb (a_last a)) | None => true end = true.
 Proof. exact hd_gen_hyps. Qed.
 Print Assumptions C12_help_flag_gen_satisfiable.
+
+(** ---- fourth pass: the help flag behind a chain of subcommands WITH arguments between the names ---- *)
+
+(** Class [hsplit c toks ns lv pst pos] (Help/HelpChainWide.v): [toks] = `pre_0 t_1 pre_1 .. t_k pre_k`; every [pre_i] is a
+    [wprefix] of the level reached (C09's wide class: options in the six spellings of [prefix_ok], values of
+    single-valued positionals, the values of a multi-valued positional) that this level ACCEPTS (its token loop on
+    [pre_i] alone, from a fresh matcher, ends without an error; at the last level also the occurrence still pending);
+    every [t_i] is a [psel] selection (name / alias, inferred prefix, long flag-subcommand, a name behind multi-values
+    with precedence); levels have [ignore_errors] and [args_conflicts_with_subcommands] off; the line ends in loop state [pst] of
+    [lv] -- between two arguments, or while a multi-valued positional that does not take hyphen values collects values
+    ([pst_ok]) -- with the positional counter at [pos].  `prog -v sub --opt x subsub --help anything..` yields the
+    help of [subsub]: the DisplayHelp error of [lv], which is the level [p_level_walk] reaches by [ns]. *)
+Theorem C12_help_flag_long_wide : forall c0 bin toks ns lv pst pos rest ul,
+  is_set s_no_binary_name c0 = false -> c_bin_name c0 <> None ->
+  valid c0 = true -> hsplit (build_self c0) toks ns lv pst pos -> pst_ok lv pst /\ long_help_at lv ul = true ->
+  parse_top c0 (bin :: toks ++ tok_help_long :: rest) = OErr (help_err lv ul)
+  /\ p_level_walk (build_self c0) ns = Some lv
+  /\ e_kind (help_err lv ul) = EDisplayHelp /\ e_cmd (help_err lv ul) = opt_default [] (c_about lv)
+  /\ e_long (help_err lv ul) = ul.
+Proof. exact help_flag_long_wide. Qed.
+Print Assumptions C12_help_flag_long_wide.
+
+(** [-h]: the positional the counter points at does not take hyphen values / negative numbers ([no_hyphen_pos]) *)
+Theorem C12_help_flag_short_wide : forall c0 bin toks ns lv pst pos rest ul,
+  is_set s_no_binary_name c0 = false -> c_bin_name c0 <> None ->
+  valid c0 = true -> hsplit (build_self c0) toks ns lv pst pos ->
+  pst_ok lv pst /\ short_help_flag lv ul = true /\ Dispatch.no_hyphen_pos lv pos ->
+  parse_top c0 (bin :: toks ++ tok_help_short :: rest) = OErr (help_err lv ul)
+  /\ p_level_walk (build_self c0) ns = Some lv
+  /\ e_kind (help_err lv ul) = EDisplayHelp /\ e_cmd (help_err lv ul) = opt_default [] (c_about lv)
+  /\ e_long (help_err lv ul) = ul.
+Proof. exact help_flag_short_wide. Qed.
+Print Assumptions C12_help_flag_short_wide.
+
+(** the class lies inside C09's [wsplit] (hence [wline]: [C09_chain_wide] speaks about the same lines) *)
+Theorem C12_hsplit_in_wsplit : forall c toks ns lv pst pos, hsplit c toks ns lv pst pos ->
+  exists names lvl, ChainWide.wsplit c toks names lvl.
+Proof. exact hsplit_wsplit. Qed.
+Print Assumptions C12_hsplit_in_wsplit.
+
+(** every level the parser reaches from an UNBUILT tree (C18's class [tree_all unb]: no node carries the [Built] flag)
+    is [_build_self] of an unbuilt record ([from_unbuilt]); such a level holds the generated help argument unless its
+    help flag is disabled -- the hypothesis [In built_help_arg (c_args lv)] of the round-3 theorems, derived *)
+Theorem C12_child_from_unbuilt : forall c n sc,
+  from_unbuilt c -> build_subcommand c n = Some sc -> from_unbuilt sc.
+Proof. exact child_from_unbuilt. Qed.
+Print Assumptions C12_child_from_unbuilt.
+
+Theorem C12_level_has_help : forall lv,
+  from_unbuilt lv -> is_set s_disable_help_flag lv = false -> In built_help_arg (c_args lv).
+Proof. exact level_has_help. Qed.
+Print Assumptions C12_level_has_help.
+
+(** nothing assumed about the help flag but "not disabled at [lv]" and "no subcommand of [lv] is NAMED like the token" *)
+Theorem C12_help_flag_long_wide_gen : forall c0 bin toks ns lv pst pos rest,
+  is_set s_no_binary_name c0 = false -> c_bin_name c0 <> None ->
+  valid c0 = true -> EngineProofs.tree_all EngineLevel.unb c0 -> hsplit (build_self c0) toks ns lv pst pos -> pst_ok lv pst ->
+  is_set s_disable_help_flag lv = false -> possible_subcommand lv tok_help_long false = None ->
+  parse_top c0 (bin :: toks ++ tok_help_long :: rest) = OErr (help_err lv true)
+  /\ p_level_walk (build_self c0) ns = Some lv
+  /\ e_kind (help_err lv true) = EDisplayHelp /\ e_cmd (help_err lv true) = opt_default [] (c_about lv)
+  /\ e_long (help_err lv true) = true.
+Proof. exact help_flag_long_wide_gen. Qed.
+Print Assumptions C12_help_flag_long_wide_gen.
+
+Theorem C12_help_flag_short_wide_gen : forall c0 bin toks ns lv pst pos rest,
+  is_set s_no_binary_name c0 = false -> c_bin_name c0 <> None ->
+  valid c0 = true -> EngineProofs.tree_all EngineLevel.unb c0 -> hsplit (build_self c0) toks ns lv pst pos -> pst_ok lv pst ->
+  is_set s_disable_help_flag lv = false -> possible_subcommand lv tok_help_short false = None ->
+  Dispatch.no_hyphen_pos lv pos ->
+  parse_top c0 (bin :: toks ++ tok_help_short :: rest) = OErr (help_err lv false)
+  /\ p_level_walk (build_self c0) ns = Some lv
+  /\ e_kind (help_err lv false) = EDisplayHelp /\ e_cmd (help_err lv false) = opt_default [] (c_about lv)
+  /\ e_long (help_err lv false) = false.
+Proof. exact help_flag_short_wide_gen. Qed.
+Print Assumptions C12_help_flag_short_wide_gen.
+
+(** the bare chains of round 3 ([C12_help_flag_long_level_gen] / [_short_level_gen]) without their last hypothesis *)
+Theorem C12_help_flag_long_level_unb : forall c0 bin names rest lv,
+  is_set s_no_binary_name c0 = false -> c_bin_name c0 <> None ->
+  valid c0 = true -> EngineProofs.tree_all EngineLevel.unb c0 -> help_chain (build_self c0) names = Some lv ->
+  is_set s_disable_help_flag lv = false -> possible_subcommand lv tok_help_long false = None ->
+  parse_top c0 (bin :: names ++ tok_help_long :: rest) = OErr (help_err lv true)
+  /\ p_level_walk (build_self c0) names = Some lv
+  /\ e_kind (help_err lv true) = EDisplayHelp /\ e_cmd (help_err lv true) = opt_default [] (c_about lv)
+  /\ e_long (help_err lv true) = true.
+Proof. exact help_flag_long_level_unb. Qed.
+Print Assumptions C12_help_flag_long_level_unb.
+
+Theorem C12_help_flag_short_level_unb : forall c0 bin names rest lv,
+  is_set s_no_binary_name c0 = false -> c_bin_name c0 <> None ->
+  valid c0 = true -> EngineProofs.tree_all EngineLevel.unb c0 -> help_chain (build_self c0) names = Some lv ->
+  is_set s_disable_help_flag lv = false -> possible_subcommand lv tok_help_short false = None ->
+  match get_pos lv 1 with Some a => negb (a_negnum a) && negb (a_hyphen a && negb (a_last a)) | None => true end = true ->
+  parse_top c0 (bin :: names ++ tok_help_short :: rest) = OErr (help_err lv false)
+  /\ p_level_walk (build_self c0) names = Some lv
+  /\ e_kind (help_err lv false) = EDisplayHelp /\ e_cmd (help_err lv false) = opt_default [] (c_about lv)
+  /\ e_long (help_err lv false) = false.
+Proof. exact help_flag_short_level_unb. Qed.
+Print Assumptions C12_help_flag_short_level_unb.
+
+(** non-vacuity: `p --verbose --cfg=a sy -y --out o1 q -z --cfg b (--help | -h) --bogus` on C09's three-level [ex_chain]
+    (flag, `--opt=v`, alias, cluster, `--opt v` at two levels; `--cfg b` of level [q] is still pending when the help
+    flag is read): every hypothesis of the four theorems holds, and [parse_top] computes to the help of [q] *)
+Theorem C12_help_wide_satisfiable :
+  is_set s_no_binary_name hw_root = false /\ c_bin_name hw_root <> None /\ valid hw_root = true
+  /\ EngineProofs.tree_all EngineLevel.unb hw_root
+  /\ exists lv, hsplit (build_self hw_root) hw_toks [Chain.w_sync; Dispatch.b1 113] lv PSValuesDone 1 /\ c_name lv = Dispatch.b1 113
+       /\ is_set s_disable_help_flag lv = false
+       /\ possible_subcommand lv tok_help_long false = None /\ possible_subcommand lv tok_help_short false = None
+       /\ Dispatch.no_hyphen_pos lv 1
+       /\ (exists p, mt_pending (mt p) <> None
+                     /\ parse_loop lv [[45; 122]; Chain.dd Chain.w_cfg; Dispatch.b1 98] (Chain.lsV 1 false) ps_new = ROk (LDone p))
+       /\ parse_top hw_root (Dispatch.b1 112 :: hw_toks ++ tok_help_long :: [hw_bogus]) = OErr (help_err lv true)
+       /\ parse_top hw_root (Dispatch.b1 112 :: hw_toks ++ tok_help_short :: [hw_bogus]) = OErr (help_err lv false).
+Proof. exact hw_hyps. Qed.
+Print Assumptions C12_help_wide_satisfiable.
+
+(** non-vacuity for the state "a multi-valued positional collects values": `p a b sync --help` / `-h` on C09's [ex_wide]
+    (`sync` is swallowed by <files>...: no [subcommand_precedence_over_arg]) -- the help of the ROOT, not of [sync] *)
+Theorem C12_help_wide_multi_satisfiable :
+  is_set s_no_binary_name hs_wide = false /\ c_bin_name hs_wide <> None /\ valid hs_wide = true
+  /\ EngineProofs.tree_all EngineLevel.unb hs_wide
+  /\ hsplit (build_self hs_wide) [Dispatch.b1 97; Dispatch.b1 98; Chain.w_sync] [] (build_self hs_wide) (PSPos ChainWide.w_files) 2
+  /\ pst_ok (build_self hs_wide) (PSPos ChainWide.w_files)
+  /\ is_set s_disable_help_flag (build_self hs_wide) = false
+  /\ possible_subcommand (build_self hs_wide) tok_help_long false = None
+  /\ possible_subcommand (build_self hs_wide) tok_help_short false = None
+  /\ Dispatch.no_hyphen_pos (build_self hs_wide) 2
+  /\ parse_top hs_wide (Dispatch.b1 112 :: [Dispatch.b1 97; Dispatch.b1 98; Chain.w_sync] ++ tok_help_long :: [])
+     = OErr (help_err (build_self hs_wide) true)
+  /\ parse_top hs_wide (Dispatch.b1 112 :: [Dispatch.b1 97; Dispatch.b1 98; Chain.w_sync] ++ tok_help_short :: [])
+     = OErr (help_err (build_self hs_wide) false).
+Proof. exact hs_hyps_multi. Qed.
+Print Assumptions C12_help_wide_multi_satisfiable.
+
+(** ---- fourth pass: `help <path>`, the help SUBCOMMAND ---- *)
+
+(** [parse_help_subcommand] with the lookup as a parameter and [_build_subcommand(&sc_name).unwrap()] visible
+    ([help_walk_with lk]: [None] = the [unwrap] panics).  With clap's lookup ([lookup_clap] =
+    [find_subcommand(cmd).map(|sc| sc.get_name())]: name or alias, exact, canonicalised to the name) the [unwrap] is
+    dead for EVERY command and word list, and the walk is the parser model's [help_walk] *)
+Theorem C12_help_walk_unwrap_dead : forall names sc, help_walk_with lookup_clap sc names = Some (help_walk sc names).
+Proof. exact help_walk_unwrap_dead. Qed.
+Print Assumptions C12_help_walk_unwrap_dead.
+
+(** what makes a lookup safe: it returns only NAMES of subcommands of the level *)
+Theorem C12_help_walk_lookup_sound : forall lk, lookup_sound lk -> forall names sc, help_walk_with lk sc names <> None.
+Proof. exact help_walk_with_total. Qed.
+Print Assumptions C12_help_walk_lookup_sound.
+
+(** ... and the two lookups that drop the canonicalisation panic: the typed text (`help delete`, [delete] an alias of
+    [remove]) and the token loop's [possible_subcommand], which under [infer_subcommands] returns the TEXT of the alias
+    a word is a prefix of (`help del`); clap's lookup answers the first with the help of [remove], the second with
+    InvalidSubcommand `del` *)
+Theorem C12_help_walk_text_panics :
+  let c := build_self (ChainWide.ex_wide false) in
+  find_subcommand c ChainWide.w_delete <> None /\ help_walk_with lookup_text c [ChainWide.w_delete] = None
+  /\ exists lv, help_walk_with lookup_clap c [ChainWide.w_delete] = Some (help_err lv true) /\ c_name lv = ChainWide.w_remove.
+Proof. exact help_walk_text_panics. Qed.
+Print Assumptions C12_help_walk_text_panics.
+
+Theorem C12_help_walk_infer_panics :
+  let c := build_self (ChainWide.ex_wide false) in
+  ChainWide.infer_list c [100; 101; 108] = [ChainWide.w_delete] /\ help_walk_with lookup_infer c [[100; 101; 108]] = None
+  /\ help_walk_with lookup_clap c [[100; 101; 108]] = Some (unknown_sub_err c [100; 101; 108]).
+Proof. exact help_walk_infer_panics. Qed.
+Print Assumptions C12_help_walk_infer_panics.
+
+(** the whole line: behind a chain with arguments ([hsplit]) a token that selects the generated [help] subcommand
+    ([help_sel]: [possible_subcommand] answers `help` -- the word itself or, with [infer_subcommands], a prefix of it --
+    and the help subcommand is not disabled; [sub_tried]: the loop looks for subcommands in that state -- between two
+    arguments, or anywhere under [subcommand_precedence_over_arg]) and a path of names / ALIASES: the DisplayHelp error (long form) of the
+    level the path leads to, which is the level [p_level_walk] reaches from the root by [ns ++ path] *)
+Theorem C12_help_subcommand_level : forall c0 bin toks ns lv pst pos tok path lv',
+  is_set s_no_binary_name c0 = false -> c_bin_name c0 <> None ->
+  valid c0 = true -> hsplit (build_self c0) toks ns lv pst pos -> help_sel lv tok /\ sub_tried lv pst ->
+  p_level_walk lv path = Some lv' ->
+  parse_top c0 (bin :: toks ++ tok :: path) = OErr (help_err lv' true)
+  /\ p_level_walk (build_self c0) (ns ++ path) = Some lv'
+  /\ e_kind (help_err lv' true) = EDisplayHelp /\ e_cmd (help_err lv' true) = opt_default [] (c_about lv')
+  /\ e_long (help_err lv' true) = true.
+Proof. exact help_sub_level. Qed.
+Print Assumptions C12_help_subcommand_level.
+
+(** a word of the path that is no name or alias of the level reached -- a proper prefix included, with or without
+    [infer_subcommands] -- is reported: InvalidSubcommand naming that word, for the level reached so far; never a panic *)
+Theorem C12_help_subcommand_unknown : forall c0 bin toks ns lv pst pos tok known w more lvk,
+  is_set s_no_binary_name c0 = false -> c_bin_name c0 <> None ->
+  valid c0 = true -> hsplit (build_self c0) toks ns lv pst pos -> help_sel lv tok /\ sub_tried lv pst ->
+  p_level_walk lv known = Some lvk -> find_subcommand lvk w = None ->
+  parse_top c0 (bin :: toks ++ tok :: known ++ w :: more) = OErr (unknown_sub_err lvk w).
+Proof. exact help_sub_unknown. Qed.
+Print Assumptions C12_help_subcommand_unknown.
+
+(** non-vacuity: `p --verbose help sy q` (through the alias `sy`, help of [q]); `p -g x a he delete` ([he] an inferred
+    prefix of `help`, [delete] an alias: help of [remove]) and `p -g x a he del` (InvalidSubcommand `del` although
+    [del] is a unique prefix of the alias and [infer_subcommands] is on) *)
+Theorem C12_help_subcommand_satisfiable :
+  is_set s_no_binary_name hw_root = false /\ c_bin_name hw_root <> None /\ valid hw_root = true
+  /\ hsplit (build_self hw_root) [Chain.dd Chain.w_verbose] [] (build_self hw_root) PSValuesDone 1
+  /\ (help_sel (build_self hw_root) s_help /\ sub_tried (build_self hw_root) PSValuesDone)
+  /\ exists lv', p_level_walk (build_self hw_root) [[115; 121]; Dispatch.b1 113] = Some lv' /\ c_name lv' = Dispatch.b1 113
+       /\ parse_top hw_root (Dispatch.b1 112 :: [Chain.dd Chain.w_verbose] ++ s_help :: [[115; 121]; Dispatch.b1 113])
+          = OErr (help_err lv' true).
+Proof. exact hs_hyps_alias. Qed.
+Print Assumptions C12_help_subcommand_satisfiable.
+
+Theorem C12_help_subcommand_infer_example :
+  is_set s_no_binary_name hs_wide = false /\ c_bin_name hs_wide <> None /\ valid hs_wide = true
+  /\ hsplit (build_self hs_wide) [[45; 103]; Dispatch.b1 120; Dispatch.b1 97] [] (build_self hs_wide) PSValuesDone 2
+  /\ (help_sel (build_self hs_wide) [104; 101] /\ sub_tried (build_self hs_wide) PSValuesDone)
+  /\ (exists lv', p_level_walk (build_self hs_wide) [ChainWide.w_delete] = Some lv' /\ c_name lv' = ChainWide.w_remove
+       /\ parse_top hs_wide (Dispatch.b1 112 :: [[45; 103]; Dispatch.b1 120; Dispatch.b1 97] ++ [104; 101] :: [ChainWide.w_delete])
+          = OErr (help_err lv' true))
+  /\ find_subcommand (build_self hs_wide) [100; 101; 108] = None
+  /\ ChainWide.infer_list (build_self hs_wide) [100; 101; 108] = [ChainWide.w_delete]
+  /\ parse_top hs_wide (Dispatch.b1 112 :: [[45; 103]; Dispatch.b1 120; Dispatch.b1 97] ++ [104; 101] :: [] ++ [100; 101; 108] :: [])
+     = OErr (unknown_sub_err (build_self hs_wide) [100; 101; 108]).
+Proof. exact hs_hyps_infer. Qed.
+Print Assumptions C12_help_subcommand_infer_example.
+
+(** ---- fourth pass: [C12_usage_hides_hidden] at the boundary of the recorded finding C12-usage-hidden-group-member ---- *)
+
+(** [mentions c x i]: the usage piece [x] = (id, text) is the piece of the argument [i], or the piece of a group whose
+    unrolled members -- what [format_group] prints between [<] and [>] -- contain [i].
+    Class: distinct argument ids, no argument id is a group id ([ids_disjoint]), built arguments, [refs_ok]; the argument is
+    [hide]n, (R) NOT in the unrolled requirement closure [usage_reqs] (not required, not reached from a required argument
+    or required group through unconditional [requires] rules) and (G) a member of NO LISTED group ([usage_members]: the
+    members of the groups among the requirements).  Then NO piece mentions it, in either form of the usage line. *)
+Theorem C12_usage_hides_hidden_exact : forall c fo items a,
+  NoDup (map ha_id (hc_args c)) -> ids_disjoint c = true -> args_ok c -> refs_ok c = true -> usage_arg_items c fo = Some items ->
+  In a (hc_args c) -> ha_hide a = true ->
+  ~ In (ha_id a) (usage_reqs c) -> mem_id (ha_id a) (usage_members c) = false ->
+  forall x, In x items -> ~ mentions c x (ha_id a).
+Proof. exact usage_hides_hidden_exact. Qed.
+Print Assumptions C12_usage_hides_hidden_exact.
+
+(** the round-3 class ([req_srcb] = false: named by no rule at all) lies inside (R) *)
+Theorem C12_usage_req_srcb_inside : forall c i, req_srcb c i = false -> ~ In i (usage_reqs c).
+Proof. exact req_srcb_not_in_reqs. Qed.
+Print Assumptions C12_usage_req_srcb_inside.
+
+Theorem C12_usage_hides_hidden_exact_satisfiable :
+  NoDup (map ha_id (hc_args rq_built)) /\ ids_disjoint rq_built = true /\ args_ok rq_built /\ refs_ok rq_built = true
+  /\ (exists items, usage_arg_items rq_built false = Some items) /\ (exists items, usage_arg_items rq_built true = Some items)
+  /\ In (rq_arg 4) (hc_args rq_built) /\ ha_hide (rq_arg 4) = true
+  /\ ~ In (ha_id (rq_arg 4)) (usage_reqs rq_built) /\ mem_id (ha_id (rq_arg 4)) (usage_members rq_built) = false
+  /\ In (rq_arg 6) (hc_args rq_built) /\ ha_hide (rq_arg 6) = true /\ ha_last (rq_arg 6) = true
+  /\ ~ In (ha_id (rq_arg 6)) (usage_reqs rq_built) /\ mem_id (ha_id (rq_arg 6)) (usage_members rq_built) = false.
+Proof. exact exact_hyps. Qed.
+Print Assumptions C12_usage_hides_hidden_exact_satisfiable.
+
+(** the boundary is sharp on both sides; each witness satisfies every other hypothesis of the theorem.
+    (G) dropped = the recorded finding: `--z` hidden, optional, not among the requirements, member of the listed group:
+    the piece `<--a|--z>` mentions it *)
+Theorem C12_usage_hidden_listed_member_mentioned :
+  exists a items x,
+    NoDup (map ha_id (hc_args hg_built)) /\ ids_disjoint hg_built = true /\ args_ok hg_built /\ refs_ok hg_built = true
+    /\ usage_arg_items hg_built false = Some items
+    /\ In a (hc_args hg_built) /\ ha_hide a = true /\ ha_required a = false /\ ha_long a = Some [122]
+    /\ ~ In (ha_id a) (usage_reqs hg_built)
+    /\ mem_id (ha_id a) (usage_members hg_built) = true
+    /\ In x items /\ mentions hg_built x (ha_id a) /\ snd x = [60; 45; 45; 97; 124; 45; 45; 122; 62].
+Proof. exact hidden_listed_member_mentioned. Qed.
+Print Assumptions C12_usage_hidden_listed_member_mentioned.
+
+(** (R) dropped: `--z` hidden, [required] off, member of no group, but the target of an unconditional [requires] rule of
+    the required `--r`: among the requirements, printed on its own -- `p --z --r <r>` *)
+Theorem C12_usage_hidden_required_target_mentioned :
+  exists a items x,
+    NoDup (map ha_id (hc_args rt_built)) /\ ids_disjoint rt_built = true /\ args_ok rt_built /\ refs_ok rt_built = true
+    /\ usage_arg_items rt_built false = Some items
+    /\ In a (hc_args rt_built) /\ ha_hide a = true /\ ha_required a = false /\ ha_long a = Some [122]
+    /\ In (ha_id a) (usage_reqs rt_built)
+    /\ mem_id (ha_id a) (usage_members rt_built) = false
+    /\ In x items /\ mentions rt_built x (ha_id a) /\ snd x = [45; 45; 122]
+    /\ usage_pieces rt_built = Some [[112]; [45; 45; 122]; [45; 45; 114; 32; 60; 114; 62]].
+Proof. exact hidden_required_target_mentioned. Qed.
+Print Assumptions C12_usage_hidden_required_target_mentioned.
